@@ -73,6 +73,15 @@ def cases(draw, tier="quick"):
             frac = ["bin", "**", g.var_leaf(), ["const", "pyfloat", k]]
         recipe = draw(st.sampled_from([frac, ["bin", "+", frac, g.var_leaf()], ["bin", "-", g.var_leaf(), frac],
                                        ["bin", "*", ["const", "pyfloat", 2.0], frac]]))
+    if draw(st.integers(0, 11)) == 0:
+        # a number raised to an expression (reflected power): an exponential, never a polynomial
+        base = draw(st.sampled_from([["const", "pyint", 2], ["const", "pyfloat", 2.0], ["const", "npfloat64", 2.0], ["const", "Constant", 3.0],
+                                     ["const", "pyfloat", 0.5]]))
+        base = base if base[1] in g.cfg.const_kinds else ["const", "pyint", 2]
+        ex = draw(st.sampled_from([g.var_leaf(), ["bin", "+", g.var_leaf(), g.var_leaf()], ["bin", "*", ["const", "pyint", 2], g.var_leaf()]]))
+        rp = ["bin", "**", base, ex]
+        recipe = draw(st.sampled_from([rp, ["bin", "-", rp, ["bin", "*", ["const", "pyint", 2], g.var_leaf()]], ["bin", "+", g.var_leaf(), rp],
+                                       ["bin", "*", rp, g.var_leaf()]]))
     lines = []
     for i_ in range(3):
         if i_ == 2:
@@ -87,7 +96,7 @@ def cases(draw, tier="quick"):
             "lines": [[{k: [v.numerator, v.denominator] for k, v in a.items()},
                        {k: [v.numerator, v.denominator] for k, v in b.items()}] for a, b in lines],
             "config": draw(st.sampled_from(["default", "default", "lowthr"])),
-            "prequery": draw(st.booleans()),
+            "prequery": draw(st.booleans()), "touch": draw(st.integers(0, 2)) == 0,
             "newp": {p["name"]: draw(st.sampled_from([0.5, 2.0, 3.0, -1.0])) for p in env["params"]}}
 
 
@@ -148,11 +157,15 @@ def _check(case, newp):
     thr = 1 if case["config"] == "lowthr" else None
     with thresholds(thr), quiet():
         try:
-            b, e = build(env, recipe)
+            # touch: every intermediate node is classified the moment it exists, BEFORE its parent is built (the cache
+            # state of a model assembled from sub-expressions that were inspected or solved on their own)
+            b, e = build(env, recipe, touch=bool(case.get("touch")))
         except Exception as ex:
             return Result.discard("build-raises:" + exc_label(ex), classes)
         if not is_expr(e):
             return Result.discard("not-an-expression", classes)
+        if case.get("touch"):
+            classes.append("touched-while-building")
         if newp:
             e.degree  # classify with the original values first ...
             for p_ in env["params"]:
